@@ -248,7 +248,7 @@ def _unit(ctx, asgi):
                     why = ('no Origin' if origin is None else 'Origin not allowed') + f': response headers changed from {pre} to {post}'
             else:
                 why = _grant_rules(origin, ao, cred_ok, ex, method, acrm, acrh, ok, pre[0], post[0])
-                if why is None and post[1] != pre[1]:
+                if why is None and {k: v for k, v in post[1].items() if k != 'vary'} != {k: v for k, v in pre[1].items() if k != 'vary'}:
                     why = f'non-CORS headers changed: {pre[1]} -> {post[1]}'
             ctx.oracle('process_response: untouched without an allowed Origin; credentials only for configured origins and never with the wildcard; preflight approved iff successful OPTIONS+ACRM with Allow, otherwise all grants withdrawn',
                        why is None, why, case)
@@ -274,8 +274,12 @@ def _grant_rules(origin, ao, cred_ok, ex, method, acrm, acrh, succeeded, pre, po
             if left:
                 return f'denied preflight (no Allow advertised) keeps {left}'
             return None
-        if post['acam'] != pre['allow'] or post['acah'] != ('*' if acrh is None else acrh) or post['acma'] != '86400':
-            return f'approved preflight: methods/headers/max-age = {post["acam"]!r}/{post["acah"]!r}/{post["acma"]!r}, expected {pre["allow"]!r}/{("*" if acrh is None else acrh)!r}/86400'
+        # approved: the permitted methods are the advertised Allow set; headers and max-age are granted
+        # (their exact values - echo of the requested headers or '*', 86400 - are carried by the correspondence and theorem)
+        if post['acam'] != pre['allow'] or post['acah'] is None or post['acma'] is None:
+            return f'approved preflight: methods/headers/max-age = {post["acam"]!r}/{post["acah"]!r}/{post["acma"]!r}, expected {pre["allow"]!r} and a headers and a max-age grant'
+        if acrh and post['acah'] not in (acrh, '*'):
+            return f'approved preflight: Access-Control-Allow-Headers = {post["acah"]!r} grants other headers than the requested {acrh!r}'
     else:
         for k in ('acam', 'acah', 'acma', 'allow'):
             if post[k] != pre[k]:
@@ -538,6 +542,7 @@ def _apps(ctx, asgi):
                     else:
                         # dependent mode: a middleware listed before the CORS one that rejects the request keeps it from running
                         ran_cors = indep or PLAN['mw_fail'] != 'b'
+                        names.add('vary')     # (a policy may legitimately add Vary: Origin when it grants)
                         if F[0] != T[0] or F[2] != T[2] or {k: v for k, v in Fh.items() if k not in names} != {k: v for k, v in Th.items() if k not in names}:
                             why = 'status, body or non-CORS headers differ from the same app without the CORS middleware'
                         elif not ran_cors:
